@@ -47,6 +47,9 @@ class ProgGen:
         nlab = r.randrange(1, 7)
         for i in range(nlab):
             ops.append("l" if r.random() < 0.75 else "nnl%d_%d" % (i, r.randrange(3)))
+        if r.random() < 0.12:
+            ops.append("L%d" % r.choice([40, 150, 400]))      # anonymous labels nobody references (label_of() indexes only the labels
+                                                               # created by `l`/`n`); they make the holder arena outgrow a small first block
         bound = {}          # label -> section index where it is bound
         home = {}           # label -> the only section that may reference or bind it (Builder serialises section by section,
         cur = 0             # so program order is not emission order: keep every label reference inside one section)
@@ -101,6 +104,8 @@ class ProgGen:
                 ops.append("z")
         if self.kind == "b" and (self.final or r.random() < 0.5):
             ops.append("Z")
+        if (self.kind == "a" or ops[-1] == "Z") and r.random() < 0.25:
+            ops.append("f")          # flatten + resolve_cross_section_fixups + relocate_to_base
         return ",".join(ops)
 
     def pick_ref(self, nlab, home, cur):
@@ -112,21 +117,22 @@ class ProgGen:
         return k
 
     def gen_compiler(self):
+        """1-2 functions. Label references are generated with function-local numbers ("@k") and rendered with the function's
+        label offset, so that the LAST function can also be rendered alone (self.alone): C16_function_independent says its code
+        must not depend on the function compiled before it by the same Compiler."""
         r = self.r
-        ops = []
-        nfun = 1 if r.random() < 0.7 else 2
-        lab = 0
+        nfun = 1 if r.random() < 0.6 else 2
         complete = self.final or r.random() < 0.7
+        funcs = []                       # (number of labels, ops with @k placeholders, complete?)
         for fi in range(nfun):
             nl = r.randrange(0, 4)
-            labs = list(range(lab, lab + nl))
-            lab += nl
-            ops += ["l"] * nl
-            ops.append("F%d" % r.randrange(4))
+            labs = list(range(nl))
+            ops = ["F%d" % r.randrange(4)]
             for _ in range(r.randrange(1, 4)):
                 ops.append("v%d" % r.randrange(100))
+            if nfun == 2 and fi == 0 and r.random() < 0.6:
+                ops.append("h%d" % (r.randrange(11, 16) if self.arch == "x" else r.randrange(22, 28)))   # register pressure: callee-saved registers get clobbered
             tobind = list(labs)
-            used = []
             for _ in range(r.randrange(2, self.size)):
                 c = r.random()
                 if c < 0.35:
@@ -136,12 +142,9 @@ class ProgGen:
                 elif c < 0.55:
                     ops.append("m%d.%d" % (r.randrange(8), r.randrange(200)))
                 elif c < 0.70 and labs:
-                    k = r.choice(labs)
-                    ops.append("c%d.%d" % (k, r.randrange(8)))
-                    used.append(k)
+                    ops.append("c@%d.%d" % (r.choice(labs), r.randrange(8)))
                 elif c < 0.80 and tobind:
-                    k = tobind.pop(r.randrange(len(tobind)))
-                    ops.append("b%d" % k)
+                    ops.append("b@%d" % tobind.pop(r.randrange(len(tobind))))
                 elif c < 0.86:
                     if self.ja:
                         ops.append("y")
@@ -153,22 +156,36 @@ class ProgGen:
                     ops.append("w" if r.random() < 0.5 else "i")
                 elif self.allow_error:
                     ops.append("z")
-            last_function_abandoned = (not complete) and fi == nfun - 1
-            if last_function_abandoned:
-                break                      # history only: function left open (no end_func, no finalize)
-            for k in tobind:
-                ops.append("b%d" % k)
-            ops.append("R%d" % r.randrange(8))
-            ops.append("E")
+            abandoned = (not complete) and fi == nfun - 1
+            if not abandoned:
+                ops += ["b@%d" % k for k in tobind]
+                ops.append("R%d" % r.randrange(8))
+                ops.append("E")
+            funcs.append((nl, ops, not abandoned))
+
+        def render(nl, ops, off):
+            return ["l"] * nl + [re.sub(r"@(\d+)", lambda m: str(int(m.group(1)) + off), o) for o in ops]
+        out, off = [], 0
+        for nl, ops, _ok in funcs:
+            out += render(nl, ops, off)
+            off += nl
+        self.alone = None
         if complete:
-            if r.random() < 0.2:
-                ops.append("e%d" % r.choice([4, 16, 64]))
-            ops.append("Z")
-        return ",".join(ops)
+            if nfun == 1 and r.random() < 0.2:
+                out.append("e%d" % r.choice([4, 16, 64]))
+            out.append("Z")
+            nl, ops, ok = funcs[-1]
+            if nfun == 2 and ok and not any(o[0] in "Kz" for o in ops) and not any(o[0] == "z" for o in funcs[0][1]):
+                self.alone = ",".join(render(nl, ops, 0) + ["Z"])
+            elif r.random() < 0.25:
+                out.append("f")
+        if r.random() < 0.1:
+            out.insert(0, "L%d" % r.choice([40, 150, 400]))
+        return ",".join(out)
 
 
 def finalizes(prog):
-    return prog.endswith("Z")
+    return prog.endswith("Z") or prog.endswith("Z,f")
 
 
 def gen_case(rng, cid, tier, arch=None, kind=None, ja=True):
@@ -224,7 +241,10 @@ def gen_case(rng, cid, tier, arch=None, kind=None, ja=True):
     for _ in range(rng.randrange(0, 4)):
         steps.append(rng.choice(["L1", "L0", "EL1", "EL0", "H%d" % rng.randrange(1000000), "DA", "NE", "XA", "XD", "E32" if arch == "x" and kind != "c" else "XN",
                                  "B1000"]))
-    steps.append("P:" + ProgGen(rng, kind, arch, size, rng.random() < 0.3, True, ja, mode["cur"]).gen())
+    pg = ProgGen(rng, kind, arch, size, rng.random() < 0.3, True, ja, mode["cur"])
+    steps.append("P:" + pg.gen())
+    if kind == "c" and getattr(pg, "alone", None):
+        steps.append("Q:" + pg.alone)      # the last function of the final program, alone, on fresh objects
     return "C %s %s %s %d %s" % (cid, arch, kind, static, " ".join(steps))
 
 
@@ -235,6 +255,11 @@ WITNESS = [
     "C w-ja-reinit-a a c 0 G:l,F1,y,y,y,y,y,R0,E,Z RI P:l,l,l,l,l,l,l,l,F1,y,b0,R0,E,Z",
     "C w-ja-newholder-x x c 0 G:l,F2,y,y,R0,E,Z NH P:F1,y,R0,E,Z",
     "C w-ja-softreset-a a c 0 G:l,F2,y,y,R0,E,Z RS P:F1,y,R0,E,Z",
+    # static arena memory (2 KiB first block), outgrown by a few hundred labels, hard reset, outgrown again (seeded change C16-3:
+    # the static block must not stay linked to the heap blocks the hard reset has just freed)
+    "C w-static-hard-x x a 2048 G:L400,l,b0 RH P:L400,l,b0,a0.1",
+    "C w-static-hard-a a b 2048 G:L400,l,b0,Z RH RH P:L400,l,b0,a0.1,Z",
+    "C w-static-hard-c x c 2048 G:L400,F1,R0,E,Z RH NE P:L400,F1,R0,E,Z",
     "C w-name-reinit-x x a 0 G:" + ",".join("nlabel_with_a_long_name_%d" % i for i in range(60)) + " RI P:l,s.data,e8,b0",
     "C w-name-softreset-a a b 0 G:" + ",".join("nlabel_with_a_long_name_%d" % i for i in range(60)) + ",Z RS P:l,s.data,e8,b0,ssec_a,e3,Z",
 ]
@@ -334,7 +359,7 @@ INITIAL_STATE = "1/1/1/1/0/0/0/0/0/0/0"
 def model_script(case, trace):
     """lifecycle script for the model: the steps of the case with every program replaced by its measured effect"""
     t = case.split(" ")
-    steps = t[5:]
+    steps = [x for x in t[5:] if not x.startswith("Q:")]
     states = trace.split(" ")
     if len(states) != len(steps):
         return None
@@ -357,6 +382,26 @@ def model_script(case, trace):
     return t[1] + " " + " ".join(out)
 
 
+def own_regen(ck, text):
+    """Translator tie restricted to the one generated file this property owns (vlib's coq_regen recompiles ALL of coq/gen, i.e.
+    every other property's tables as well). Same contract: None when the text equals the committed snapshot, else
+    (gen_dir, failed_files, log) after compiling the regenerated ResetFields.v in a scratch VerifGen directory."""
+    import shutil
+    committed = os.path.join(vlib.COQ, "gen", "ResetFields.v")
+    if os.path.exists(committed) and open(committed).read() == text:
+        return None
+    wgen = os.path.join(ck.work, "gen")
+    shutil.rmtree(wgen, ignore_errors=True)
+    os.makedirs(wgen)
+    open(os.path.join(wgen, "ResetFields.v"), "w").write(text)
+    failed = ck.coq_make(["theories/Lifecycle/ResetProofs.vo"])
+    if failed:
+        return wgen, ["<theories/Lifecycle>"], getattr(ck, "coq_log", "")
+    rc, out, err = vlib.sh(["coqc", "-Q", os.path.join(vlib.COQ, "theories"), "Verif", "-Q", wgen, "VerifGen", "-w", "-all",
+                            os.path.join(wgen, "ResetFields.v")], cwd=wgen, timeout=900)
+    return wgen, ([] if rc == 0 else ["ResetFields.v"]), (out + err)[-3000:]
+
+
 def strip_field(dump, name):
     return " ".join(f for f in fields(dump) if not f.startswith(name + "="))
 
@@ -370,7 +415,7 @@ def run(ck):
     text = c16_fields.to_coq(classes, funcs)
     nfields = sum(len(v["fields"]) for k, v in classes.items() if k in c16_fields.CLASSES)
     ck.log("translator: %d classes, %d functions, %d members" % (len([c for c in classes if c in c16_fields.CLASSES]), len(funcs), nfields))
-    regen = ck.coq_regen({"ResetFields.v": text})
+    regen = own_regen(ck, text)
     gen_dir = None
     gen_failed = False
     uncovered = []
@@ -511,6 +556,19 @@ def run(ck):
                              "%s build: a section created by CodeHolder::new_section has a name field that is not the requested name followed "
                              "by zeros (stale arena/heap bytes follow it; section_by_name compares the whole field)" % variant,
                              {"case": c, "variant": variant, "recycled": rec[:1500], "fresh": fresh[:1500]})
+            if "T" in r:
+                stats["function_independence_checks"] = stats.get("function_independence_checks", 0) + 1
+                mt = re.search(r"sec\[0 \.text \S+ \S+ \S+ \S+ \S+ n\d+ ([0-9a-f]*)\]", rec)
+                alone_errs, _, alone_text = r["T"].partition(" text=")
+                errs_ok = all(int(x) in (0,) or int(x) >= 1000 for x in re.findall(r"-?\d+", alone_errs)) and \
+                    all(int(x) == 0 or int(x) >= 1000 for x in fields(rec)[0][5:].split(","))
+                if mt and errs_ok and alone_text and not mt.group(1).endswith(alone_text):
+                    stats["function_independence_diffs"] = stats.get("function_independence_diffs", 0) + 1
+                    ck.violation("C16/residue/function-depends-on-previous-function",
+                                 "%s build: the code of the last function of a two-function Compiler program (%d bytes when compiled alone on "
+                                 "fresh objects) is not the tail of the code generated when it is compiled after another function by the same "
+                                 "Compiler (state of the previous function leaks into the next one)" % (variant, len(alone_text) // 2),
+                                 {"case": c, "variant": variant, "alone": alone_text[:600], "combined_tail": mt.group(1)[-len(alone_text) - 64:][:800]})
             rec2, fresh2 = strip_field(rec, "namesok"), strip_field(fresh, "namesok")
             if rec2 == fresh2:
                 stats["identical"] += 1
@@ -567,7 +625,7 @@ def run(ck):
             if got == want:
                 continue
             corr["disagreements"] += 1
-            steps = c.split(" ")[5:]
+            steps = [x for x in c.split(" ")[5:] if not x.startswith("Q:")]
             for i, (g, w_) in enumerate(zip(got, want)):
                 if g != w_:
                     break
@@ -598,9 +656,11 @@ def run(ck):
         if any(s.startswith(("G:", "P:")) and (",z" in s or ":z" in s) for s in t[5:]):
             dist["with_error_op"] += 1
         last = [s for s in t[5:] if s in RESETISH][-1]
+        if any(s.startswith(("G:", "P:")) and ",h" in s for s in t[5:]):
+            dist["with_register_pressure"] = dist.get("with_register_pressure", 0) + 1
         dist["final_reset"][last] = dist["final_reset"].get(last, 0) + 1
         for s in t[5:]:
-            k = s[:2] if s[:2] in ("G:", "P:") else (s[0] if s[0] in "HB" else s)
+            k = s[:2] if s[:2] in ("G:", "P:", "Q:") else (s[0] if s[0] in "HB" else s)
             dist["steps"][k] = dist["steps"].get(k, 0) + 1
 
     # ---------------------------------------------------------------- coverage obligation failures -> named members
@@ -646,9 +706,11 @@ def run(ck):
                                   "rule": "after the final reset-like (+ neutral) steps, before the final program: every non-skipped data member of "
                                           "CodeHolder / BaseEmitter / BaseAssembler|BaseBuilder / BaseCompiler of the recycled objects vs. fresh objects "
                                           "in the same configuration"},
-         "unsupported": ["operands array of InstNodeWithOperands<N> (template, reset by InstNode::_reset_ops)", "VirtReg / JumpAnnotation / RAWorkReg / RABlock "
-                         "objects (allocated per use in arenas that are reset as a whole)", "Pass objects other than BaseRAPass",
-                         "FuncRetNode / CommentNode / SentinelNode (no own data members)", "early returns are not guards (Arena::reset on the zero block)"],
+         "unsupported": ["operand storage behind InstNode is not a data member: covered by glue calls (must_call), not by member writes",
+                         "early returns inside loops are not turned into guards", "RAAssignment / RALiveSpans / RATiedReg internals",
+                         "FuncRetNode / CommentNode / SentinelNode (no own data members)",
+                         "the Builder theorems (BuilderDirty.v) are tied to the code through C08's correspondence for fresh builders and through "
+                         "this check's differential for recycled ones, not by an own command-level correspondence"],
          "lifecycle_model_correspondence": corr, "traces_validated_against_impl": corr["scripts"]},
         assumptions=["theorems are about the extracted member/write/call-graph data and the Gallina lifecycle model, not about the C++ text",
                      "tools/c16_fields.py sees every MemberExpr write / member call / call edge of the dumped translation units (clang 14 AST)",
